@@ -106,6 +106,11 @@ func runSeq(owners ...string) func(t *testing.T, scAny any, trace bool) *Outcome
 		if sc.CRace != nil {
 			return runCreateRace(t, sc, trace)
 		}
+		if sc.Conc != nil {
+			o := keepOwned(runC29All(t, sc.Conc, trace), owners...)
+			o.NonTrivial = true
+			return o
+		}
 		o := &Outcome{}
 		res := Bubble(t, sc.Sched.config(trace), nil, func() {
 			simrt.Event("scenario %x", simrt.Hash(hashBytes(mustJSON(sc))))
@@ -223,6 +228,15 @@ func shrinkSeq(scAny any) []any {
 	if sc.CRace != nil {
 		return shrinkCreateRace(sc)
 	}
+	if sc.Conc != nil {
+		var out []any
+		for _, c := range shrinkC29(sc.Conc) {
+			n := *sc
+			n.Conc = c.(*C29Scn)
+			out = append(out, &n)
+		}
+		return out
+	}
 	var out []any
 	cp := func() *SeqScn {
 		c := *sc
@@ -300,6 +314,14 @@ func shrinkSeq(scAny any) []any {
 // ---------- generators ----------
 
 var nameAlphabet = []string{"a", "b", "c", "d", "e"}
+
+// genConc: the concurrent class of the reply-consistency properties - C29's workload with caches enabled and
+// long-lived, judged after quiescence by what a fresh client is told (c29AfterQuiescence).
+func genConc(r *simrt.Rand, tier, kind string) *SeqScn {
+	cs := genC29(r, tier).(*C29Scn)
+	cs.Cached = true
+	return &SeqScn{Kind: kind, Conc: cs, Sched: cs.Sched}
+}
 
 func genCfg(r *simrt.Rand) SrvCfg {
 	c := SrvCfg{MaxWorkers: 1 + r.Int(3)}
@@ -797,6 +819,9 @@ func genNamespaceOps(r *simrt.Rand, sc *SeqScn, sh *shadow, n int, withBadNames 
 }
 
 func genC02(r *simrt.Rand, tier string) any {
+	if r.Pct(20) {
+		return genConc(r, tier, "C02") // concurrent class
+	}
 	sc := &SeqScn{Kind: "C02", Cfg: genCfg(r), Cred: RootCred, ThinkM: genThink(r), Sched: SeqSched(r.Uint64()), Diff: true}
 	// the cached side of the differential gets real caching most of the time
 	if r.Pct(70) {
@@ -843,7 +868,7 @@ func genC02(r *simrt.Rand, tier string) any {
 func init() {
 	Register(&Prop{
 		ID: "C02", Level: "exploration",
-		Rule:    "one case = one sequential history of 15-60 LOOKUP/CREATE/MKDIR/SYMLINK/REMOVE/RMDIR/RENAME/READDIR(PLUS)/GETATTR/READLINK ops over a 5-letter alphabet, depth <=3, through handles from earlier replies (including handles of removed/renamed objects, non-directory and invalid names), run in lock-step against two real servers in one bubble: one with the drawn attribute/negative/directory cache configuration and think times on the fake clock, one with caches at minimal TTL and size. Oracles per operation: success/failure equals the POSIX tree model, backend tree == model tree, listings == model children, the two servers' decoded replies are equal (timestamps excluded); 25% of the cases instead inject one backend error (EIO/ENOSPC/EACCES on create, mkdir, symlink, remove, rename, chmod, chown, close, lstat, ...) or one slow mutating backend call (16-28 s: longer than the procedure's own time-out, shorter than the request time-out) into some request of a single server: a faulted request that fails must leave the backend tree exactly as it was, one that succeeds must have its complete effect, and every later request is judged exactly. non-trivial = >=1 negative LOOKUP later made positive, >=1 READDIR after a mutation of that directory, >=1 REMOVE/RMDIR/RENAME of something previously looked up; distinct by event digest",
+		Rule:    "one case = one sequential history of 15-60 LOOKUP/CREATE/MKDIR/SYMLINK/REMOVE/RMDIR/RENAME/READDIR(PLUS)/GETATTR/READLINK ops over a 5-letter alphabet, depth <=3, through handles from earlier replies (including handles of removed/renamed objects, non-directory and invalid names), run in lock-step against two real servers in one bubble: one with the drawn attribute/negative/directory cache configuration and think times on the fake clock, one with caches at minimal TTL and size. Oracles per operation: success/failure equals the POSIX tree model, backend tree == model tree, listings == model children, the two servers' decoded replies are equal (timestamps excluded); 20% of the cases are the concurrent class: C29's workload (2-4 clients on separate connections, shared directories and handles, renames, removes, writes, peeks at each other's names, caches enabled with hour-long lifetimes, optional backend stalls and errors, every interleaving decided by the seeded scheduler) followed, once every request has been answered, by a fresh client that looks every name up: a name the backend has must be found, a name it lacks must not (caches never hide a mutation the server completed); 25% of the cases instead inject one backend error (EIO/ENOSPC/EACCES on create, mkdir, symlink, remove, rename, chmod, chown, close, lstat, ...) or one slow mutating backend call (16-28 s: longer than the procedure's own time-out, shorter than the request time-out) into some request of a single server: a faulted request that fails must leave the backend tree exactly as it was, one that succeeds must have its complete effect, and every later request is judged exactly. non-trivial = >=1 negative LOOKUP later made positive, >=1 READDIR after a mutation of that directory, >=1 REMOVE/RMDIR/RENAME of something previously looked up; distinct by event digest",
 		Gen:     genC02,
 		New:     func() any { return &SeqScn{} },
 		Run:     runSeq("C02."),
@@ -948,6 +973,9 @@ func init() {
 // ----- C04 (and the always-on attribute monitor) -----
 
 func genC04(r *simrt.Rand, tier string) any {
+	if r.Pct(20) {
+		return genConc(r, tier, "C04") // concurrent class
+	}
 	sc := &SeqScn{Kind: "C04", Cfg: genCfg(r), Cred: RootCred, ThinkM: genThink(r), Sched: SeqSched(r.Uint64())}
 	sc.Tree = genTree(r, 1+r.Int(3), 1+r.Int(2), 1+r.Int(3))
 	sh := newShadow(r, sc.Tree)
@@ -1055,7 +1083,7 @@ func mixGen(own func(*simrt.Rand, string) any, ownPct int, kind string) func(*si
 func init() {
 	Register(&Prop{
 		ID: "C04", Level: "exploration",
-		Rule:    "one case = a sequential history over a tree with files, directories and symlinks (incl. dangling): SETATTR with arbitrary 12-bit modes and type bits in the mode word, GETATTR, LOOKUP, READDIRPLUS, ACCESS, READ, READLINK, WRITE, namespace operations, clock advances, per-run cache configuration, in a quarter of these with 1-3 injected backend errors / short transfers as in C01 (the faulted request is exempt, every later reply is judged exactly; half of these end with the half-failed-SETATTR motif: LOOKUP, a SETATTR of mode and times, with or without size, whose chmod/chown/chtimes fails, then LOOKUP, GETATTR and READDIRPLUS of the object) (60%), or one of the C01/C02/C03 workloads (40%); monitor on every attribute block of every reply (fattr3, post_op_attr, wcc after, entryplus3): type and fileid constant while the path is unchanged; type, size and permission bits equal to the backend lstat at reply time; non-trivial = at least one operation executed; distinct by event digest",
+		Rule:    "one case = a sequential history over a tree with files, directories and symlinks (incl. dangling): SETATTR with arbitrary 12-bit modes and type bits in the mode word, GETATTR, LOOKUP, READDIRPLUS, ACCESS, READ, READLINK, WRITE, namespace operations, clock advances, per-run cache configuration, in a quarter of these with 1-3 injected backend errors / short transfers as in C01 (the faulted request is exempt, every later reply is judged exactly; half of these end with the half-failed-SETATTR motif: LOOKUP, a SETATTR of mode and times, with or without size, whose chmod/chown/chtimes fails, then LOOKUP, GETATTR and READDIRPLUS of the object) (60%), or one of the C01/C02/C03 workloads (40%); monitor on every attribute block of every reply (fattr3, post_op_attr, wcc after, entryplus3): type and fileid constant while the path is unchanged; type, size and permission bits equal to the backend lstat at reply time; 20% of the cases are the concurrent class: C29's workload (2-4 clients on separate connections, shared directories and handles, renames, removes, writes, peeks at each other's names, caches enabled with hour-long lifetimes, optional backend stalls and errors, every interleaving decided by the seeded scheduler) followed, once every request has been answered, by a fresh client that looks every name up: type, size and permission bits in the reply equal the backend's lstat; non-trivial = at least one operation executed; distinct by event digest",
 		Gen:     mixGen(genC04, 60, "C04"),
 		New:     func() any { return &SeqScn{} },
 		Run:     runSeq("C04."),
@@ -1195,6 +1223,9 @@ func advTarget(r *simrt.Rand) string {
 }
 
 func genC07(r *simrt.Rand, tier string) any {
+	if r.Pct(10) {
+		return genConc(r, tier, "C07") // concurrent class
+	}
 	sc := &SeqScn{Kind: "C07", Cfg: genCfg(r), Cred: RootCred, ThinkM: genThink(r), Sched: SeqSched(r.Uint64())}
 	sc.Tree = genTree(r, 1+r.Int(3), 1+r.Int(2), r.Int(2))
 	if r.Pct(30) {
@@ -1428,6 +1459,9 @@ func genC25(r *simrt.Rand, tier string) any {
 // ----- C26 -----
 
 func genC26(r *simrt.Rand, tier string) any {
+	if r.Pct(20) {
+		return genConc(r, tier, "C26") // concurrent class
+	}
 	sc := &SeqScn{Kind: "C26", Cfg: genCfg(r), Cred: RootCred, ThinkM: []int{0, 1, 200, 11000}[r.Int(4)], Sched: SeqSched(r.Uint64())}
 	n := r.Int(41)
 	sc.Tree = append(sc.Tree, TreeEnt{Path: "/d", Kind: "dir", Mode: 0o755})
@@ -1549,7 +1583,7 @@ func seqProp(id, rule string, gen func(*simrt.Rand, string) any, owners ...strin
 }
 
 func init() {
-	seqProp("C07", "one case = a sequential history of 10-40 name-taking calls (LOOKUP, CREATE in every mode, MKDIR, SYMLINK name and target, REMOVE, RMDIR, RENAME both names, MNT path, READLINK) whose names are drawn from all strings of length 1..4 over the adversarial alphabet {a . / \\ NUL space 0x80}, 255/256-byte names, long multi-component strings and escaping targets, over a random tree incl. a pre-existing escaping symlink (60%), or a C01-C04 workload (40%); monitor on every backend call of every operation: path absolute and normalized and equal to a handle's path or that path plus one validated component; no Symlink with absolute or '..' target; no READLINK reply with a relative '..' target; invalid names never succeed; non-trivial = at least one operation; distinct by event digest",
+	seqProp("C07", "one case = a sequential history of 10-40 name-taking calls (LOOKUP, CREATE in every mode, MKDIR, SYMLINK name and target, REMOVE, RMDIR, RENAME both names, MNT path, READLINK) whose names are drawn from all strings of length 1..4 over the adversarial alphabet {a . / \\ NUL space 0x80}, 255/256-byte names, long multi-component strings and escaping targets, over a random tree incl. a pre-existing escaping symlink (60%), or a C01-C04 workload (40%); monitor on every backend call of every operation: path absolute and normalized and equal to a handle's path or that path plus one validated component; no Symlink with absolute or '..' target; no READLINK reply with a relative '..' target; invalid names never succeed; 10% of the cases are the concurrent class: C29's workload (2-4 clients on separate connections, shared directories and handles, renames, removes, writes, peeks at each other's names, caches enabled with hour-long lifetimes, optional backend stalls and errors, every interleaving decided by the seeded scheduler) followed, once every request has been answered, by a fresh client that is not needed: every backend call made during the concurrent phase is checked for an absolute, normalized path; non-trivial = at least one operation; distinct by event digest",
 		mixGen(genC07, 60, "C07"), "C07.")
 	seqProp("C11", "one case = a history of 8-28 CREATE/MKDIR/SYMLINK/SETATTR calls with sattr3 uid/gid set to foreign ids, issued under drawn credentials (boundary uids/gids, 0-16 aux gids, AUTH_NONE) and squash modes in mixed case, per-operation credential switches; monitor on the backend call log: every Chown/Lchown issued for a request whose effective uid (reference squash function) is not 0 carries exactly the caller's effective uid/gid; after a successful CREATE/MKDIR/SYMLINK the new inode's owner in the backend is the caller's effective identity; a quarter of the cases inject backend errors (chtimes, chmod, lstat, stat, truncate, close - not the chown itself) so that recovery paths run under the same monitor; a fifth of the cases are the concurrent class: one SETATTR from an effective root assigning uid and/or gid and 1-3 SETATTRs from callers that are not root (mode, times or size; 30% also naming foreign ids) for ONE object at the same time, each on its own connection, 2-4 workers, 0-2 backend calls stalled 0.2-80 ms, start offsets 0-3 ms, every lock/unlock/channel/network interleaving decided by the seeded scheduler - every Chown the backend is asked for carries the ids the root request set, and once the root request is answered OK they are the owner on record; non-trivial = at least one operation; distinct by event digest",
 		genC11, "C11.")
@@ -1557,7 +1591,7 @@ func init() {
 		mixGen(genC12, 80, "C12"), "C12.")
 	seqProp("C25", "one case = a C01-style WRITE/SETATTR(size)/READ history with MaxFileSize in {1,100,1000,4096,5000,10000} set at construction (60%) or by UpdateExportOptions in mid-history (40%), offsets and sizes biased to the limit +-2; oracle: a WRITE or SETATTR(size) that would grow a file beyond the limit gets NFS3ERR_FBIG and leaves the file unchanged (backend == byte-array model after every operation), requests within the limit succeed as without it; non-trivial = at least one operation; distinct by event digest",
 		genC25, "C25.")
-	seqProp("C26", "one case = a directory of 0-40 entries (files, directories, symlinks) with name lengths 1..255 listed by 2-8 READDIR/READDIRPLUS cookie-following sequences with count/maxcount from 1 upward (dense near the size of one entry), dircount <= maxcount, directory cache on/off with the clock advancing between pages, entries created between listings; oracle: concatenation over pages == model children exactly once, fileids equal to those of other replies, encoded READDIR3resok/READDIRPLUS3resok size <= the client's limit, NFS3ERR_TOOSMALL iff not even the next entry fits, a page that can hold an entry holds at least one; 15% of the cases run on a backend that hands out directory entries in batches of 1-5 whenever it is asked for 'at most n' (no effect on Readdir(-1)); non-trivial = at least one listing; distinct by event digest",
+	seqProp("C26", "one case = a directory of 0-40 entries (files, directories, symlinks) with name lengths 1..255 listed by 2-8 READDIR/READDIRPLUS cookie-following sequences with count/maxcount from 1 upward (dense near the size of one entry), dircount <= maxcount, directory cache on/off with the clock advancing between pages, entries created between listings; oracle: concatenation over pages == model children exactly once, fileids equal to those of other replies, encoded READDIR3resok/READDIRPLUS3resok size <= the client's limit, NFS3ERR_TOOSMALL iff not even the next entry fits, a page that can hold an entry holds at least one; 15% of the cases run on a backend that hands out directory entries in batches of 1-5 whenever it is asked for 'at most n' (no effect on Readdir(-1)); 20% of the cases are the concurrent class: C29's workload (2-4 clients on separate connections, shared directories and handles, renames, removes, writes, peeks at each other's names, caches enabled with hour-long lifetimes, optional backend stalls and errors, every interleaving decided by the seeded scheduler) followed, once every request has been answered, by a fresh client that lists both directories with READDIRPLUS: exactly the backend's entries; non-trivial = at least one listing; distinct by event digest",
 		genC26, "C26.")
 	seqProp("C23", "one case = FSINFO followed by READ and WRITE with counts drawn from {1, preferred, max-1, max} of the advertised limits, for a per-run configured TransferSize (1..65536 and default; in 40% of the runs 1, 2, 3, 5, 1001, 1023, 4097, 65535 or values around and above the 1 MiB record limit) optionally changed at runtime between FSINFO and the I/O, or before the FSINFO (0, -1, 1, 1001, 4096, 2 MiB through UpdateExportOptions or UpdateTuningOptions), on a full record-marked connection (the 1 MiB record limit is in play); oracle: READ before EOF returns >= 1 correct byte, WRITE is accepted (never NFS3ERR_INVAL, never a dropped connection) and reports its count, which is exactly what the backend then holds (in a quarter of the cases the backend takes fewer bytes than given, without an error), rtpref<=rtmax, wtpref<=wtmax; non-trivial = at least one FSINFO-driven I/O; distinct by event digest",
 		genC23, "C23.")
